@@ -192,6 +192,21 @@ var c18builders = []c18mk{
 	}},
 	{"Del.Key", func(b Builder, ks []string) Completed { return b.Del().Key(ks...).Build() }},
 	{"Arbitrary.Keys", func(b Builder, ks []string) Completed { return b.Arbitrary("MGET").Keys(ks...).Build() }},
+	{"Arbitrary.Keys.Args.Keys", func(b Builder, ks []string) Completed {
+		// keys handed over in several Keys() calls (as rueidiscompat builds ZINTERSTORE dst numkeys key...)
+		c := b.Arbitrary("ZINTERSTORE").Keys(ks[0]).Args("2")
+		if len(ks) > 1 {
+			c = c.Keys(ks[1:]...)
+		}
+		return c.Build()
+	}},
+	{"Arbitrary.Keys.Keys.Keys", func(b Builder, ks []string) Completed {
+		c := b.Arbitrary("MGET")
+		for _, k := range ks {
+			c = c.Keys(k)
+		}
+		return c.Build()
+	}},
 	{"Eval.Key", func(b Builder, ks []string) Completed {
 		return b.Eval().Script("return 1").Numkeys(int64(len(ks))).Key(ks...).Build()
 	}},
